@@ -170,6 +170,9 @@ func runCorpus(repo, verif, prop string, par int) []corpusResult {
 	}
 	var jobs []job
 	for _, e := range loadCorpus(verif) {
+		if (corpusKind != "" && e.Kind != corpusKind) || (corpusOnly != "" && !strings.Contains(e.Name, corpusOnly)) {
+			continue
+		}
 		for _, p := range e.Props {
 			if prop == "" || p == prop {
 				jobs = append(jobs, job{e, p})
@@ -192,6 +195,8 @@ func runCorpus(repo, verif, prop string, par int) []corpusResult {
 	return results
 }
 
+var corpusKind, corpusOnly string
+
 func tally(rs []corpusResult) map[string]int {
 	t := map[string]int{}
 	for _, r := range rs {
@@ -206,7 +211,10 @@ func cmdSelftest(args []string) int {
 	verif := fs.String("verif", "/verif", "")
 	prop := fs.String("prop", "", "only entries of this property")
 	par := fs.Int("j", 8, "parallel variants")
+	kind := fs.String("kind", "", "only must-fire or must-stay-silent entries")
+	only := fs.String("only", "", "only entries whose name contains this")
 	fs.Parse(args)
+	corpusKind, corpusOnly = *kind, *only
 	rs := runCorpus(*repo, *verif, *prop, *par)
 	bad := 0
 	for _, r := range rs {
